@@ -40,6 +40,11 @@ def body(run):
         rows += [r for r in res[6].rows if r["lifetime"] not in seen]
     cases = [{"n": i, "mode": "lifetime", "lifetime_ms": r["lifetime"]} for i, r in enumerate(rows)]
     byl = {r["lifetime"]: r for r in rows}
+    # the same rows with the server's clock an hour behind / ahead of the client's
+    for r in rows:
+        if r["lifetime"] in (1000, 2000, 5000, 60000, 3600000):
+            for skew in (-3600000, 3600000):
+                cases.append({"n": len(cases), "mode": "lifetime", "lifetime_ms": r["lifetime"], "skew_ms": skew})
     base = len(cases)
     runs = [dict(policy="None", secmode="None", lifetime_ms=2000, duration_ms=6500, senders=3),
             dict(policy="Basic256Sha256", secmode="SignAndEncrypt", lifetime_ms=2000, duration_ms=6500, senders=3)]
@@ -75,14 +80,16 @@ def body(run):
             row = byl[o["lifetime_ms"]]
             when = o["renew_when_ns"] / 1e6
             rev = o["revised_lifetime_ns"] / 1e6
-            r["obs"] = {"lifetime_ms": o["lifetime_ms"], "renew_delay_ms": when, "window": [row["lo"], row["hi"]]}
+            r["obs"] = {"lifetime_ms": o["lifetime_ms"], "skew_ms": o.get("skew_ms", 0), "renew_delay_ms": when, "window": [row["lo"], row["hi"]]}
             if rev != row["lifetime"]:
                 r["status"], r["key"], r["detail"] = "inconclusive", "", "revised lifetime %s differs from the requested %s" % (rev, row["lifetime"])
             elif not (row["lo"] <= when < row["hi"]):
                 trunc = (when == row["asis"] and row["asis"] != row["contract"])
                 r["status"] = "violation"
                 r["key"] = ("renewal-delay-truncated-to-whole-seconds-zero" if when == 0 else "renewal-delay-truncated-to-whole-seconds-before-half-lifetime") if trunc else "renewal-delay-outside-window"
-                r["detail"] = "lifetime %d ms: the client schedules the renewal after %d ms, the specification requires [%d, %d) (0.75 L = %d)" % (
+                if o.get("skew_ms"):
+                    r["key"] = "renewal-delay-depends-on-server-clock"
+                r["detail"] = ("server clock %+d ms: " % o.get("skew_ms", 0) if o.get("skew_ms") else "") + "lifetime %d ms: the client schedules the renewal after %d ms, the specification requires [%d, %d) (0.75 L = %d)" % (
                     row["lifetime"], when, row["lo"], row["hi"], row["contract"])
         else:
             L = o["lifetime_ms"]
@@ -116,7 +123,7 @@ def body(run):
                     run.violation(k, d, case=r["case"])
     run.absorb(results)
     # binding demonstration: a row with a shifted window must reject the observed delay
-    ok_rows = [r for r in results if r.get("status") == "ok" and r["case"]["mode"] == "lifetime"]
+    ok_rows = [r for r in results if r.get("status") == "ok" and r["case"]["mode"] == "lifetime" and "window" in (r.get("obs") or {})]
     if ok_rows:
         r = ok_rows[len(ok_rows) // 2]
         w = r["obs"]["window"]
